@@ -9,6 +9,7 @@ any more: re-assigning `vrnt_phypos` / `vrnt_genpos` keeps the metadata and the 
 -/
 import PybropsModel.Lemmas.GMapMeta
 import PybropsModel.Lemmas.GMapSeq
+import PybropsModel.Lemmas.GMapLex
 set_option autoImplicit false
 set_option linter.unusedSectionVars false
 
@@ -95,6 +96,41 @@ theorem Reach.groupedSorted {m : MapObj α β} (h : Reach m) : m.GroupedSorted :
   | interpGenpos qchr qphy _ ih => exact MapObj.groupedSorted_interpGenpos ih qchr qphy
   | assign rows _ hl ih => exact MapObj.groupedSorted_assign ih rows hl
   | derived qchr qphy tags _ hd _ => exact MapObj.groupedSorted_of_ungrouped (MapObj.interpGmap_gmeta hd)
+
+/-! ### `select` with the same markers in another order (round 5) -/
+
+/-- distinct indices select rows with distinct (chromosome, physical position) from a map without duplicated
+    physical positions -/
+theorem noDupPhys_take {rows : List (Row α β)} (h : NoDupPhys rows) {idx : List Nat} (hi : idx.Nodup) :
+    NoDupPhys (Np.take idx rows) := by
+  unfold NoDupPhys Np.take at *
+  rw [List.map_filterMap]
+  refine List.Nodup.filterMap ?_ hi
+  intro i j b hb1 hb2
+  simp only [Option.mem_def, Option.map_eq_some_iff] at hb1 hb2
+  obtain ⟨a, ha, hab⟩ := hb1
+  obtain ⟨a', ha', hab'⟩ := hb2
+  obtain ⟨hi', rfl⟩ := List.getElem?_eq_some_iff.mp ha
+  obtain ⟨hj', rfl⟩ := List.getElem?_eq_some_iff.mp ha'
+  have : (rows.map (fun r => (r.chr, r.phy)))[i]'(by simpa using hi') =
+      (rows.map (fun r => (r.chr, r.phy)))[j]'(by simpa using hj') := by
+    simp [hab, hab']
+  exact (List.Nodup.getElem_inj_iff h).mp this
+
+/-- on a grouped object `select` re-sorts: index arrays that are rearrangements of one another give the same object -/
+theorem MapObj.select_perm_eq (m : MapObj α β) (hg : m.grouped = true) {idx idx' : List Nat} (hp : idx.Perm idx')
+    (hv : NoDupPhys (Np.take idx m.rows)) : m.select idx = m.select idx' := by
+  have hp' : (Np.take idx m.rows).Perm (Np.take idx' m.rows) := hp.filterMap _
+  have h := construct_eq_of_perm_of_noDupPhys hp' hv
+  simp [MapObj.select, MapObj.regroup, hg, h]
+
+/-- on an ungrouped object `select` keeps the rows in the order of the index array and the object stays ungrouped -/
+theorem MapObj.select_ungrouped_rows (m : MapObj α β) (hg : m.grouped = false) (idx : List Nat) :
+    (m.select idx).rows = Np.take idx m.rows ∧ (m.select idx).grouped = false := by
+  have hg' : m.gmeta.isSome = false := hg
+  constructor
+  · simp [MapObj.select, MapObj.regroup, hg]
+  · simp [MapObj.select, MapObj.regroup, MapObj.grouped, hg']
 
 end object
 
